@@ -270,7 +270,7 @@ func (self *TransparencyBinaryServerProtocol) Close() error {
 
 	self.closed = true
 	willCommands := self.serverProtocol.willCommands
-	if willCommands != nil {
+	if willCommands != nil && self.slock.state != STATE_LEADER {
 		self.serverProtocol.willCommands = nil
 		self.glock.Unlock()
 
@@ -967,7 +967,7 @@ func (self *TransparencyTextServerProtocol) Close() error {
 
 	self.closed = true
 	willCommands := self.serverProtocol.willCommands
-	if willCommands != nil {
+	if willCommands != nil && self.slock.state != STATE_LEADER {
 		self.serverProtocol.willCommands = nil
 		self.glock.Unlock()
 
